@@ -25,6 +25,13 @@ pub enum Rel {
     Appended(u8),
     Empty,
     Independent(Vec<u8>),
+    /// two substitutions a whole number of 64-bit words apart, applying the same code change (their
+    /// bit differences cancel under XOR / word sums)
+    TwoSubst(u16, u8, u8),
+    /// the same length, every symbol the same one
+    Constant(u8),
+    /// the same symbols rotated by a whole number of words
+    RotatedWords(u8),
 }
 
 #[derive(Clone, Debug, Serialize, Deserialize)]
@@ -74,6 +81,36 @@ pub fn partner(m: &crate::model::Model, a: &[u8], rel: &Rel) -> Vec<u8> {
         }
         Rel::Empty => vec![],
         Rel::Independent(v) => v.iter().map(|c| if codes.contains(c) { *c } else { codes[0] }).collect(),
+        Rel::TwoSubst(p, words, c) => {
+            let per = (64 / m.bits).max(1);
+            let mut b = a.to_vec();
+            if m.bits * per == 64 && n > per {
+                let first = scale16(*p, n - per - 1);
+                let gap = per * (1 + *words as usize % ((n - 1 - first) / per).max(1));
+                let second = (first + gap).min(n - 1);
+                // choose a pair (x -> y) and apply it at `first`, and the reverse change at `second` when
+                // the content allows, otherwise the same target symbol
+                let y = codes[*c as usize % codes.len()];
+                let x = b[first];
+                b[first] = y;
+                b[second] = if b[second] == y { x } else if b[second] == x { y } else { b[second] ^ (x ^ y) };
+                if !codes.contains(&b[second]) {
+                    b[second] = y;
+                }
+            } else if n > 0 {
+                b[0] = codes[(*c as usize + 1) % codes.len()];
+            }
+            b
+        }
+        Rel::Constant(c) => vec![codes[*c as usize % codes.len()]; n],
+        Rel::RotatedWords(w) => {
+            let per = (64 / m.bits).max(1);
+            let mut b = a.to_vec();
+            if n > 0 {
+                b.rotate_left((per * (1 + *w as usize % 4)) % n);
+            }
+            b
+        }
     }
 }
 
@@ -197,6 +234,9 @@ fn rel(m: &'static crate::model::Model) -> BoxedStrategy<Rel> {
         1 => any::<u8>().prop_map(Rel::Appended),
         1 => Just(Rel::Empty),
         2 => gen::codes(m, 60).prop_map(Rel::Independent),
+        3 => (any::<u16>(), any::<u8>(), any::<u8>()).prop_map(|(p, w, c)| Rel::TwoSubst(p, w, c)),
+        2 => any::<u8>().prop_map(Rel::Constant),
+        1 => any::<u8>().prop_map(Rel::RotatedWords),
     ]
     .boxed()
 }
